@@ -3,7 +3,7 @@
    (outcome, full model dump, diagnostics by line/site/message).  `faults` (Model/Faults.v) is the
    SPECIFICATION: the list of (fault class, line) a program contains.  For each fault class the
    theorem says: a fault of that class at line l is answered by a diagnostic of that class at
-   line l - under the guard written in the statement, which is exactly the region in which the
+   line l - under the guard written in the statement, which is the region in which the
    real visitor is right.  Outside the guard the *_refuted lemmas exhibit a witness program on
    which the faithful model (hence the real visitor: the witnesses are replayed on it on every
    run) does NOT diagnose; those are the recorded findings visitor-C12 of known_findings.json. *)
@@ -26,10 +26,11 @@ Theorem C12_unknown_option_diagnosed t l r :
 Proof. exact (unknown_option_diagnosed t l r). Qed.
 Print Assumptions C12_unknown_option_diagnosed.
 
-(* guard: unquoted values (a quoted value loses its quotes before the check: finding IllegalOptionValue:missed) *)
+(* guard: plain values: not quoted (a quoted value loses its quotes before the check: finding IllegalOptionValue:missed),
+   a basic type in one of the lexer's spellings *)
 Theorem C12_illegal_option_value_diagnosed t l r :
   In (FIllegalOptionValue, l) (faults t) -> visit t = VOk r ->
-  (forall d, In d (option_decls t) -> unquoted d) ->
+  (forall d, In d (option_decls t) -> plain_value d) ->
   has_diag r DK_OptValue l.
 Proof. exact (illegal_option_value_diagnosed t l r). Qed.
 Print Assumptions C12_illegal_option_value_diagnosed.
@@ -50,7 +51,7 @@ Theorem C12_second_root_diagnosed t l r :
 Proof. exact (second_root_diagnosed t l r). Qed.
 Print Assumptions C12_second_root_diagnosed.
 
-(* guard: the length attribute is the one that takes effect and no length-of sits in an inline object *)
+(* guard: the length attribute is the one that takes effect, the field is no object field, and no length-of sits in an inline object *)
 Theorem C12_len_outside_root_diagnosed t l r :
   In (FLenOutsideRoot, l) (faults t) -> visit t = VOk r -> len_final t -> no_inline_len t ->
   has_diag r DK_LenNotRoot l.
@@ -64,67 +65,151 @@ Proof. exact (second_len_diagnosed t l r). Qed.
 Print Assumptions C12_second_len_diagnosed.
 
 (* an undeclared packet as the type of a TOP-LEVEL object field of a non-duplicate packet is diagnosed, on the line of the fieldDefinition *)
-Theorem C12_undeclared_object_type_diagnosed t r A d B fw sp rep ft fn doc comma :
+Theorem C12_undeclared_object_type_diagnosed t r A d B a fw b sp rep ft fn doc comma :
   visit t = VOk r ->
   packet_defs t = A ++ d :: B -> ~ In (pd_name_text d) (map pd_name_text A) ->
-  In fw (pd_fields d) -> fw_def fw = ObjectField sp rep ft fn doc comma ->
+  pd_fields d = a ++ fw :: b -> fw_def fw = ObjectField sp rep ft fn doc comma ->
   ~ In (p_text ft) (Faults.packet_names t) -> ~ In (p_text ft) (meta_names t) ->
   has_diag r DK_UnknownPacket (start_line sp).
-Proof. exact (undeclared_object_type_diagnosed t r A d B fw sp rep ft fn doc comma). Qed.
+Proof. exact (undeclared_object_type_diagnosed t r A d B a fw b sp rep ft fn doc comma). Qed.
 Print Assumptions C12_undeclared_object_type_diagnosed.
 
-(* recorded finding: the full statement fails on this witness *)
-Theorem C12_dup_field_refuted : In (FDupField, 1) (faults w_dup_field) /\ accepted w_dup_field.
-Proof. exact (dup_field_refuted). Qed.
-Print Assumptions C12_dup_field_refuted.
+(* ---- the repaired classes: universal statements (structural form: the declaration is named by its place in the tree) *)
 
-(* recorded finding: the full statement fails on this witness *)
-Theorem C12_dup_match_key_refuted : In (FDupMatchKey, 1) (faults w_dup_match_key) /\ accepted w_dup_match_key.
-Proof. exact (dup_match_key_refuted). Qed.
-Print Assumptions C12_dup_match_key_refuted.
+(* duplicate field name at the top level of a packet, neither declaration carrying a @lengthOf *)
+Theorem C12_dup_field_diagnosed t r d a fw1 m fw2 b :
+  visit t = VOk r -> In d (packet_defs t) -> pd_fields d = a ++ fw1 :: m ++ fw2 :: b ->
+  np_field_name (fw_def fw1) = np_field_name (fw_def fw2) -> has_len fw1 = false -> has_len fw2 = false ->
+  has_diag r DK_DupField (start_line (fw_span fw2)).
+Proof. exact (dup_field_diagnosed t r d a fw1 m fw2 b). Qed.
+Print Assumptions C12_dup_field_diagnosed.
 
-(* recorded finding: the full statement fails on this witness *)
-Theorem C12_undeclared_match_key_refuted : In (FUndeclaredMatchKey, 1) (faults w_undeclared_match_key) /\ accepted w_undeclared_match_key.
-Proof. exact (undeclared_match_key_refuted). Qed.
-Print Assumptions C12_undeclared_match_key_refuted.
+(* duplicate key in a match field at the top level of a packet (keys as the parser shapes them: pair_wf) *)
+Theorem C12_dup_match_key_diagnosed t r d a fw b sp md comma l :
+  visit t = VOk r -> In d (packet_defs t) -> pd_fields d = a ++ fw :: b -> fw_def fw = MatchField sp md comma ->
+  Forall pair_wf (mf_pairs md) -> In l (later_dups [] (match_keys md)) ->
+  has_diag r DK_DupMatchKey l.
+Proof. exact (dup_match_key_diagnosed t r d a fw b sp md comma l). Qed.
+Print Assumptions C12_dup_match_key_diagnosed.
 
-(* recorded finding: the full statement fails on this witness *)
-Theorem C12_undeclared_len_target_refuted : In (FUndeclaredLenTarget, 1) (faults w_undeclared_len_target) /\ accepted w_undeclared_len_target.
-Proof. exact (undeclared_len_target_refuted). Qed.
-Print Assumptions C12_undeclared_len_target_refuted.
+(* match on a key that is no field of the packet *)
+Theorem C12_undeclared_match_key_diagnosed t r d a fw b sp md comma :
+  visit t = VOk r -> In d (packet_defs t) -> pd_fields d = a ++ fw :: b -> fw_def fw = MatchField sp md comma ->
+  (forall x, In x (fw_attrs fw) -> is_len_or_calc x = false) ->
+  ~ In (p_text (mf_key md)) (map (fun x => np_field_name (fw_def x)) (pd_fields d)) ->
+  has_diag r DK_UnknownMatchKey (start_line (fw_span fw)).
+Proof. exact (undeclared_match_key_diagnosed t r d a fw b sp md comma). Qed.
+Print Assumptions C12_undeclared_match_key_diagnosed.
 
-(* recorded finding: the full statement fails on this witness *)
-Theorem C12_undeclared_packet_in_pair_refuted : In (FUndeclaredPacket, 1) (faults w_undeclared_in_pair) /\ accepted w_undeclared_in_pair.
-Proof. exact (undeclared_packet_in_pair_refuted). Qed.
-Print Assumptions C12_undeclared_packet_in_pair_refuted.
+(* the length field of the root packet whose target is no field of the packet *)
+Theorem C12_undeclared_len_target_diagnosed t r d a fw b tn :
+  visit t = VOk r -> In d (packet_defs t) -> pd_root d <> None -> pd_fields d = a ++ fw :: b ->
+  (forall x, In x a -> has_len x = false) ->
+  final_is_len fw = true -> NoPanic.is_object_field (fw_def fw) = false -> fw_len_targets fw = [tn] ->
+  ~ In tn (map (fun x => np_field_name (fw_def x)) (pd_fields d)) ->
+  has_diag r DK_UnknownLenTarget (start_line (fw_span fw)).
+Proof. exact (undeclared_len_target_diagnosed t r d a fw b tn). Qed.
+Print Assumptions C12_undeclared_len_target_diagnosed.
 
-(* recorded finding: the full statement fails on this witness *)
-Theorem C12_undeclared_packet_in_inline_refuted : In (FUndeclaredPacket, 1) (faults w_undeclared_in_inline) /\ accepted w_undeclared_in_inline.
-Proof. exact (undeclared_packet_in_inline_refuted). Qed.
-Print Assumptions C12_undeclared_packet_in_inline_refuted.
+(* an undeclared packet as the value of a single-key match pair *)
+Theorem C12_undeclared_packet_in_pair_diagnosed t r A d B a fw b sp md comma pr :
+  visit t = VOk r ->
+  packet_defs t = A ++ d :: B -> ~ In (pd_name_text d) (map pd_name_text A) ->
+  pd_fields d = a ++ fw :: b -> fw_def fw = MatchField sp md comma ->
+  (forall x, In x (fw_attrs fw) -> is_len_or_calc x = false) ->
+  In pr (mf_pairs md) -> (match PT.mp_key pr with MKList _ => False | _ => True end) ->
+  ~ In (p_text (mp_ident pr)) (Faults.packet_names t) ->
+  has_diag r DK_UnknownPacket (start_line (mp_span pr)).
+Proof. exact (undeclared_packet_in_pair_diagnosed t r A d B a fw b sp md comma pr). Qed.
+Print Assumptions C12_undeclared_packet_in_pair_diagnosed.
 
-(* recorded finding: the full statement fails on this witness *)
+(* an undeclared packet as the type of a field of an inline object *)
+Theorem C12_undeclared_packet_in_inline_diagnosed t r A d B a fw b sp rep sp2 nm o subfields c comma spx repx ft fn doc commax :
+  visit t = VOk r ->
+  packet_defs t = A ++ d :: B -> ~ In (pd_name_text d) (map pd_name_text A) ->
+  pd_fields d = a ++ fw :: b -> fw_def fw = InerObjectField sp rep (InerObjectDecl sp2 nm o subfields c) comma ->
+  (forall x, In x (fw_attrs fw) -> is_len_or_calc x = false) ->
+  In (ObjectField spx repx ft fn doc commax) subfields ->
+  ~ In (p_text ft) (Faults.packet_names t) -> ~ In (p_text ft) (meta_names t) ->
+  has_diag r DK_UnknownPacket (start_line spx).
+Proof. exact (undeclared_packet_in_inline_diagnosed t r A d B a fw b sp rep sp2 nm o subfields c comma spx repx ft fn doc commax). Qed.
+Print Assumptions C12_undeclared_packet_in_inline_diagnosed.
+
+(* the documented option values that used to be refused *)
+Theorem C12_padchar_nul_accepted : faults w_padchar_nul = [] /\ accepted w_padchar_nul.
+Proof. exact (padchar_nul_accepted). Qed.
+Print Assumptions C12_padchar_nul_accepted.
+
+Theorem C12_alias_option_value_accepted :
+  faults w_alias_option = [] /\ accepted w_alias_option /\
+  exists r1 r2, visit w_alias_option = VOk r1 /\ visit w_short_option = VOk r2 /\
+                r_options r1 = r_options r2 /\ r_config r1 = r_config r2.
+Proof. exact (alias_option_value_accepted). Qed.
+Print Assumptions C12_alias_option_value_accepted.
+
+(* ---- recorded findings: the full statement fails on these witnesses *)
+
 Theorem C12_len_in_inline_refuted : In (FLenOutsideRoot, 1) (faults w_len_in_inline) /\ accepted w_len_in_inline.
 Proof. exact (len_in_inline_refuted). Qed.
 Print Assumptions C12_len_in_inline_refuted.
 
-(* recorded finding: the full statement fails on this witness *)
+Theorem C12_len_then_calc_refuted : In (FLenOutsideRoot, 1) (faults w_len_then_calc) /\ accepted w_len_then_calc.
+Proof. exact (len_then_calc_refuted). Qed.
+Print Assumptions C12_len_then_calc_refuted.
+
+Theorem C12_lengthof_on_object_nonroot_refuted :
+  In (FLenOutsideRoot, 1) (faults w_lengthof_on_object_nonroot) /\ only_diag w_lengthof_on_object_nonroot DK_AttrOnObject 1.
+Proof. exact (lengthof_on_object_nonroot_refuted). Qed.
+Print Assumptions C12_lengthof_on_object_nonroot_refuted.
+
+Theorem C12_dup_field_after_dropped_len_refuted :
+  In (FDupField, 1) (faults w_dup_field_after_dropped_len) /\
+  exists r, visit w_dup_field_after_dropped_len = VOk r /\ no_diag_of r DK_DupField.
+Proof. exact (dup_field_after_dropped_len_refuted). Qed.
+Print Assumptions C12_dup_field_after_dropped_len_refuted.
+
+Theorem C12_len_target_of_dropped_len_refuted :
+  In (FUndeclaredLenTarget, 1) (faults w_len_target_of_dropped_len) /\ only_diag w_len_target_of_dropped_len DK_LenNotRoot 1.
+Proof. exact (len_target_of_dropped_len_refuted). Qed.
+Print Assumptions C12_len_target_of_dropped_len_refuted.
+
+Theorem C12_match_key_after_calc_refuted : In (FUndeclaredMatchKey, 1) (faults w_match_after_calc) /\ accepted w_match_after_calc.
+Proof. exact (match_key_after_calc_refuted). Qed.
+Print Assumptions C12_match_key_after_calc_refuted.
+
+Theorem C12_undeclared_packet_in_dup_packet_refuted :
+  In (FUndeclaredPacket, 1) (faults w_undeclared_in_dup_packet) /\
+  exists r, visit w_undeclared_in_dup_packet = VOk r /\ no_diag_of r DK_UnknownPacket.
+Proof. exact (undeclared_packet_in_dup_packet_refuted). Qed.
+Print Assumptions C12_undeclared_packet_in_dup_packet_refuted.
+
+Theorem C12_undeclared_packet_line_refuted :
+  In (FUndeclaredPacket, 1) (faults w_undeclared_packet_line) /\
+  exists r, visit w_undeclared_packet_line = VOk r /\ ~ has_diag r DK_UnknownPacket 1 /\ has_diag r DK_UnknownPacket 2.
+Proof. exact (undeclared_packet_line_refuted). Qed.
+Print Assumptions C12_undeclared_packet_line_refuted.
+
+Theorem C12_undeclared_packet_in_list_pair_line_refuted :
+  In (FUndeclaredPacket, 1) (faults w_undeclared_in_list_pair) /\
+  exists r, visit w_undeclared_in_list_pair = VOk r /\ ~ has_diag r DK_UnknownPacket 1 /\ has_diag r DK_UnknownPacket 2.
+Proof. exact (undeclared_packet_in_list_pair_line_refuted). Qed.
+Print Assumptions C12_undeclared_packet_in_list_pair_line_refuted.
+
+Theorem C12_dup_unknown_option_refuted :
+  In (FDupOption, 1) (faults w_dup_unknown_option) /\
+  exists r, visit w_dup_unknown_option = VOk r /\ no_diag_of r DK_OptDup.
+Proof. exact (dup_unknown_option_refuted). Qed.
+Print Assumptions C12_dup_unknown_option_refuted.
+
+Theorem C12_second_root_dup_refuted :
+  In (FSecondRoot, 1) (faults w_second_root_dup) /\
+  exists r, visit w_second_root_dup = VOk r /\ no_diag_of r DK_MultiRoot.
+Proof. exact (second_root_dup_refuted). Qed.
+Print Assumptions C12_second_root_dup_refuted.
+
 Theorem C12_quoted_option_value_refuted :
   In (FIllegalOptionValue, 1) (faults w_quoted_option) /\
   exists r, visit w_quoted_option = VOk r /\
             r_diags r = [mkDiag 1 DK_OptValue "Option LittleEndian is not allowed to be yes, Expected one of:true,false"].
 Proof. exact (quoted_option_value_refuted). Qed.
 Print Assumptions C12_quoted_option_value_refuted.
-
-(* recorded finding: the full statement fails on this witness *)
-Theorem C12_padchar_nul_rejected :
-  faults w_padchar_nul = [] /\ exists r, visit w_padchar_nul = VOk r /\ has_diag r DK_OptValue 1.
-Proof. exact (padchar_nul_rejected). Qed.
-Print Assumptions C12_padchar_nul_rejected.
-
-(* recorded finding: the full statement fails on this witness *)
-Theorem C12_alias_option_value_rejected :
-  faults w_alias_option = [] /\ exists r, visit w_alias_option = VOk r /\ has_diag r DK_OptValue 1.
-Proof. exact (alias_option_value_rejected). Qed.
-Print Assumptions C12_alias_option_value_rejected.
-
